@@ -262,6 +262,11 @@ func (s *Solo) Vote(t *rapid.T, id gpbft.ActorID, round uint64, phase gpbft.Phas
 	if m == nil {
 		return false
 	}
+	if rapid.IntRange(0, 11).Draw(t, "suppvariant") == 0 {
+		// first a copy signed over other supplemental commitments: it must count nowhere
+		s.deliver(s.W.suppVariant(m))
+		s.W.Stats.SuppVariants++
+	}
 	s.sent = append(s.sent, m)
 	s.Stats.Votes++
 	s.deliver(m)
